@@ -1154,6 +1154,43 @@ func main() {
 			}
 		}
 	}
+	// (f2) handler + listener on one node whose patterns swap an anonymous and a named placeholder
+	//      (same name sequence, different positions): a conflict in either order, also through a mount
+	if o.Replay == "" {
+		swaps := [][2]string{{"a.$x.*", "a.*.$x"}, {"$x.*.$y", "*.$x.$y"}, {"a.$x.*.>", "a.*.$x.>"}, {"$x.*", "*.$x"}, {"a.$x.b.*.$y", "a.*.b.$x.$y"}}
+		for _, pr := range swaps {
+			A, Bp := pr[0], pr[1]
+			for variant := 0; variant < 8; variant++ {
+				ops := []ropD{{K: "new", Path: ""}}
+				switch variant {
+				case 0:
+					ops = append(ops, ropD{K: "handle", Pat: A, Hid: 1, Grp: "${x}"}, ropD{K: "listen", Pat: Bp, Lid: 1})
+				case 1:
+					ops = append(ops, ropD{K: "listen", Pat: Bp, Lid: 1}, ropD{K: "handle", Pat: A, Hid: 1, Grp: "${x}"})
+				case 2:
+					ops = append(ops, ropD{K: "handle", Pat: A, Hid: 1, Lpat: Bp, Lid: 1})
+				case 3:
+					ops = append(ops, ropD{K: "listen", Pat: A, Lid: 1}, ropD{K: "listen", Pat: Bp, Lid: 2}, ropD{K: "handle", Pat: A, Hid: 1})
+				case 4:
+					ops = append(ops, ropD{K: "new", Path: ""}, ropD{K: "mount", M: 0, Path: "m", Sub: 1}, ropD{K: "handle", M: 1, Pat: A, Hid: 1, Grp: "${x}"}, ropD{K: "listen", M: 0, Pat: "m." + Bp, Lid: 1})
+				case 5:
+					ops = append(ops, ropD{K: "new", Path: ""}, ropD{K: "mount", M: 0, Path: "m", Sub: 1}, ropD{K: "listen", M: 0, Pat: "m." + Bp, Lid: 1}, ropD{K: "handle", M: 1, Pat: A, Hid: 1, Grp: "${x}"})
+				case 6:
+					ops = append(ops, ropD{K: "new", Path: "p"}, ropD{K: "listen", M: 1, Pat: Bp, Lid: 1}, ropD{K: "mount", M: 0, Path: "m", Sub: 1}, ropD{K: "handle", M: 0, Pat: "m.p." + A, Hid: 1, Lpat: "m.p." + A, Lid: 2})
+				case 7:
+					ops = append(ops, ropD{K: "listen", Pat: Bp, Lid: 1}, ropD{K: "handle", Pat: A, Hid: 1, Lpat: A, Lid: 2, Onreg: true}, ropD{K: "register", M: 0})
+				}
+				d := desc{Ops: ops}
+				for _, n := range []string{"a.1.2", "1.2.3", "a.1.2.3", "1.2", "a.1.b.2.3", "a.1.2.3.4"} {
+					d.Looks = append(d.Looks, lookD{0, n}, lookD{0, "m." + n}, lookD{0, "m.p." + n}, lookD{1, n}, lookD{1, "p." + n})
+				}
+				c, _ := mkCase(d, st, false)
+				c.Tags = appendUniq(c.Tags, "placeholder-position-swap")
+				dist["placeholder-position-swap"]++
+				cases = append(cases, c)
+			}
+		}
+	}
 	// (g) Register / OnRegister / AddListener(nil) / Mount of a registered mux, and (h) the scenarios of the
 	//     seeded rounds, scripted
 	if o.Replay == "" {
